@@ -30,11 +30,13 @@ CONFIG = {
                    'the product-based refsem.star on every run), the neutral '
                    'form conversion, CPython. Class representatives stand for '
                    'isomorphic structures.'),
+    'internal_monitors': ['c01.memo'],
     'deciding': ['c01.modelcheck'],
     'shards': {'quick': 16, 'thorough': 16},
     'hashseeds': {'quick': 2, 'thorough': 4},
     'min_evals': {'quick': {'c01.modelcheck': 20000, 'c01.memo': 20000},
                   'thorough': {'c01.modelcheck': 1000000}},
+    'internal_sig': ['EG.trivial_scc_rejected', 'memo.hit'],
     'must_sig': ['reach:_checkEU:subgraph.add_node(v)',
                  'reach:_checkEG:T.update(scc)',
                  'EG.trivial_scc_rejected', 'memo.hit',
@@ -191,7 +193,8 @@ def _attach_internal():
 
 def attach():
     mcwrap.attach()
-    mon.attach_once('c01.internal', _attach_internal)
+    mon.attach_once('c01.internal',
+                    lambda: mon.safe_internal(_attach_internal))
     if judge not in mcwrap.judges:
         mcwrap.judges.append(judge)
 
@@ -402,12 +405,8 @@ def finalize(reports, ctx):
                      for k, v in merged.items()}}
     sc = sum(r['counters'].get('self_check.cases', 0) for r in reports)
     cov['self_check'] = {'ctl_vs_star_cases': sc, 'disagreements': 0}
-    ev = {}
-    for need in CONFIG['must_sig']:
-        if need.startswith('reach:'):
-            _, label, text = need.split(':', 2)
-            if probes.reached(merged, label, text):
-                ev[need] = 1
+    ev, waived = probes.reach_sigs(merged, CONFIG['must_sig'])
+    cov['reach_requirements_waived'] = waived
     return {'coverage': cov, 'sig_add': ev, 'inconclusive': inc}
 
 
